@@ -72,7 +72,9 @@ class JacobianMonitor(solvex.Monitor):
         # rounding of the data is amplified by cond(W) and by the ratio |r| / (|J| * spread)
         rscale = max(1e-300, float(np.max(np.abs(R))))
         jscale = max(float(np.max(np.abs(Jfit))), rscale / dmax * 1e-8, 1e-300)
-        tol = 1e-8 * cond * max(1.0, rscale / (dmax * jscale))
+        # 1e-8*cond for ordinary data; where the Jacobian is tiny next to the residuals the differences cancel and rounding
+        # (eps) is amplified by rscale/(dmax*jscale) - that amplification is accounted for explicitly, not by a loose constant
+        tol = max(1e-8 * cond, 1e4 * np.finfo(float).eps * cond * rscale / (dmax * jscale))
         err = float(np.max(np.abs(J - Jfit))) / jscale
         if err > tol:
             ex.violate("jacobian_is_fit", "soln.jacobian differs from the independent fit through evaluations %s by %.3g relative "
@@ -81,7 +83,7 @@ class JacobianMonitor(solvex.Monitor):
         if ex.cfg["prob"]["f"] == "lin" and not ex.cfg.get("noise_amp") and not ex.devs:
             A = np.array(ex.cfg["prob"]["A"])
             errA = float(np.max(np.abs(J - A))) / max(1e-300, float(np.max(np.abs(A))))
-            if errA > 1e-6 * cond * max(1.0, rscale / (dmax * float(np.max(np.abs(A))))):
+            if errA > max(1e-6 * cond, 1e4 * np.finfo(float).eps * cond * rscale / (dmax * float(np.max(np.abs(A))))):
                 ex.violate("jacobian_is_A", "linear residuals but soln.jacobian differs from A by %.3g relative (cond %.3g)" % (errA, cond))
         ex.tags.add("jacobian_checked")
         if len(nums) > ex.n + 1:
@@ -110,7 +112,10 @@ def _problems(n, salt):
     if n == 2:
         A, b = oracles.lin_bank(3, 2, 30.0, 0, salt)
         return [({"f": "lin", "A": A.tolist(), "b": b.tolist(), "salt": salt}, [0.6, -0.4]),
-                ({"f": "rosen", "salt": salt}, [-1.2, 1.0]), ({"f": "nzr", "salt": salt}, [-1.2, 1.0])]
+                ({"f": "rosen", "salt": salt}, [-1.2, 1.0]), ({"f": "nzr", "salt": salt}, [-1.2, 1.0]),
+                # badly scaled units: a Jacobian of size 1e-7 next to residuals of size 1, and a rank-deficient Jacobian
+                ({"f": "lin", "A": (1e-7 * A).tolist(), "b": (b + 1.0).tolist(), "salt": salt}, [0.6, -0.4]),
+                ({"f": "lin", "A": [[1.0, 2.0], [2.0, 4.0], [0.5, 1.0]], "b": [0.3 + 0.01 * salt, -0.2, 0.9], "salt": salt}, [0.6, -0.4])]
     A, b = oracles.lin_bank(4, 3, 30.0, 1, salt)
     return [({"f": "lin", "A": A.tolist(), "b": b.tolist(), "salt": salt}, [0.6, -0.4, 0.2]),
             ({"f": "nzr3", "salt": salt}, [0.5, -0.5, 1.0])]
